@@ -181,6 +181,10 @@ def _add_zids(zdir: Path, page: Page) -> None:
             first_line, newline, other_lines = note.body.lstrip().partition(
                 "\n"
             )
+            if first_line.endswith("\r"):
+                # A page with \r\n line endings: the \r belongs to the line
+                # break, not to the last word of the line.
+                first_line, newline = first_line[:-1], "\r" + newline
             first_words = first_line.split(" ")
             if zdt.is_long_date_spec(first_words[0]):
                 first_line = " ".join(first_words[1:])
